@@ -3,9 +3,10 @@ import ModVerif.Drv.Zip
 import ModVerif.Drv.Dirhash
 import ModVerif.Drv.GenZip
 import ModVerif.Drv.GenModule
+import ModVerif.Drv.GenDirhash
 open ModVerif.Drv
 
 def gzip : Handler := fun op args =>
   (GenZip.handle op args) <|> (GenZip.handleCf Zip.parseFiles Zip.realEnv.cfp GenModule.equalFoldI op args)
 
-def main : IO Unit := runMain [("zip", Zip.handle), ("dirhash", Dirhash.handle), ("gzip", gzip)]
+def main : IO Unit := runMain [("zip", Zip.handle), ("dirhash", Dirhash.handle), ("gzip", gzip), ("gdirhash", GenDirhash.handle)]
